@@ -20,6 +20,7 @@ pub fn check(tier: Tier) -> Check {
         parts.push(Part::new("C07/dispatch", json!({"depth": d}), k, tier.pick(40, 500)));
     }
     parts.push(Part::new("C07/fields", json!({}), 0, tier.pick(20, 60)));
+    parts.push(Part::new("C07/dispatch", json!({"depth": tier.pick(4, 6), "flavour": 1}), 0, tier.pick(30, 400)));
     // four established subscriptions: stream drops / lag in every order, messages to every one
     parts.push(Part::new("C07/many", json!({"subs": 4, "depth": tier.pick(4, 6)}), tier.pick(0, 1), tier.pick(30, 400)));
     Check {
@@ -155,7 +156,7 @@ pub fn scenario(name: &str, params: &Value) -> Scenario {
         let mut sys = Sys::new("C07", &name, chz);
         sys.params = params.clone();
         sys.m.check_client_acks = false;
-        sys.bring_up(vec![]);
+        sys.bring_up_fl(vec![], params["flavour"].as_u64().unwrap_or(0));
         let devs = |s: &Sys| sched_deviations(s, false, true);
         let evs = |s: &Sys| {
             let mut e = vec![];
